@@ -216,7 +216,7 @@ fn prost_error_site(e: &str) -> Option<String> {
     }
 }
 
-const N_STATIC: u64 = 7;
+const N_STATIC: u64 = 8;
 
 impl Property for C07 {
     fn id(&self) -> &'static str {
@@ -235,7 +235,7 @@ impl Property for C07 {
         }
     }
     fn rule(&self) -> &'static str {
-        "cases 0..6 are the finite inventory checks, each run exactly once per run and exhaustive over its finite set (facets static:*): binding tables cover exactly the messages/enums of the parsed .proto files; every enum value (try_from / as_str_name / from_str_name, and rejection of numbers outside the schema); field names in Debug(T::default()) for every message; data/*.ommx opens, decodes, validates and re-encodes to the same content; the FileDescriptorProto embedded in every python/ommx/ommx/v1/*_pb2.py equals the parsed .proto field by field (THIS IS A STATIC COMPARISON OF THE GENERATED PYTHON BINDINGS, NOT AN EXECUTION: no protobuf runtime for Python exists in the sandbox); protoc --descriptor_set_out cross-check of the harness's own .proto parser. Every other case takes one message type (round-robin over all types), generates a random value tree from the parsed schema (depth<=4, interesting scalars), encodes it with the independent hostile encoder (random field order, packed/unpacked/mixed/chunked repeated scalars, explicit defaults, explicit presence, any oneof arm or none, map entries in any order with optional default omission, unknown fields of every wire type incl. groups, split singular messages, overwritten scalars), pushes the bytes through T::decode -> encode_to_vec -> T::decode -> encode_to_vec and decodes both prost encodings with the independent decoder; plus 3 hostile byte strings per case (must give Ok or Err, never a panic or crash). Non-trivial = the normal form of the generated tree has at least one non-default field; distinct = fingerprint of (type name, generated bytes)."
+        "cases 0..7 are the finite inventory checks, each run exactly once per run and exhaustive over its finite set (facets static:*): binding tables cover exactly the messages/enums of the parsed .proto files; every enum value (try_from / as_str_name / from_str_name, and rejection of numbers outside the schema); field names in Debug(T::default()) for every message; data/*.ommx opens, decodes, validates and re-encodes to the same content; the FileDescriptorProto embedded in every python/ommx/ommx/v1/*_pb2.py equals the parsed .proto field by field (THIS IS A STATIC COMPARISON OF THE GENERATED PYTHON BINDINGS, NOT AN EXECUTION: no protobuf runtime for Python exists in the sandbox); protoc --descriptor_set_out cross-check of the harness's own .proto parser; and the tree's schema against the schema published at the pinned release, frozen in harness/src/schema_lock.tsv (every published field keeps name, number, type and label, every enum value its number; additions are counted, not judged). Every other case takes one message type (round-robin over all types), generates a random value tree from the parsed schema (depth<=4, interesting scalars), encodes it with the independent hostile encoder (random field order, packed/unpacked/mixed/chunked repeated scalars, explicit defaults, explicit presence, any oneof arm or none, map entries in any order with optional default omission, unknown fields of every wire type incl. groups, split singular messages, overwritten scalars), pushes the bytes through T::decode -> encode_to_vec -> T::decode -> encode_to_vec and decodes both prost encodings with the independent decoder; plus 3 hostile byte strings per case (must give Ok or Err, never a panic or crash). Non-trivial = the normal form of the generated tree has at least one non-default field; distinct = fingerprint of (type name, generated bytes)."
     }
     fn assumptions(&self) -> Vec<&'static str> {
         vec![
@@ -263,6 +263,7 @@ impl Property for C07 {
             4 => check_python(schema, env, mon),
             5 => check_protoc(schema, env, mon),
             6 => check_canonical_defaults(schema, mon),
+            7 => check_published_lock(schema, mon),
             _ => dynamic_case(schema, k, rng, mon),
         }
     }
@@ -587,6 +588,25 @@ fn check_python(schema: &Schema, env: &Env, mon: &mut Monitor) {
         if !covered.contains(f) {
             mon.violation(format!("C07.python-descriptor:{f}:no-python-module"), format!("no *_pb2.py below {} embeds the descriptor of {f}", dir.display()));
         }
+    }
+}
+
+/// The schema published with the pinned release, frozen when this machinery was built
+/// (`ommx-verif schema-lock --repo <pinned tree>`). The tree's .proto files, the Rust bindings and the
+/// Python descriptors are compared with each other elsewhere; a *consistent* edit of all three (a
+/// renumbered or retyped field) passes those comparisons and still breaks every artifact and
+/// adapter that speaks the published numbers, so the tree's schema is also compared with this text.
+/// New messages, fields and enum values are additions (counted, not judged).
+const PUBLISHED_LOCK: &str = include_str!("../schema_lock.tsv");
+
+fn check_published_lock(schema: &Schema, mon: &mut Monitor) {
+    mon.facet("static:published-schema-lock");
+    let (diffs, checked, additions) = wire::diff_lock(PUBLISHED_LOCK, schema);
+    mon.evals(checked);
+    mon.facet_n("published-lock-entries-checked", checked);
+    mon.facet_n("published-lock-additions-in-tree", additions);
+    for (key, text) in diffs {
+        mon.violation(format!("C07.published-schema:{key}"), format!("{key}: {text} (published schema frozen in harness/src/schema_lock.tsv)"));
     }
 }
 
